@@ -478,6 +478,12 @@ func checkMain(id string, args []string) int {
 			}
 		}
 	}
+	toolErr := exit == 2
+	if nviol > 0 {
+		// reproduced violations stand on their own, also when another job of the run could not be evaluated
+		// (its TOOL-ERROR line is printed above and the run is reported as not exhaustive)
+		exit = 1
+	}
 	os.Remove(filepath.Join(verif, ".work", id+"-violations.txt"))
 	if len(allViol) > 0 {
 		os.WriteFile(filepath.Join(verif, ".work", id+"-violations.txt"), []byte(strings.Join(allViol, "\n")+"\n"), 0o644)
@@ -490,7 +496,7 @@ func checkMain(id string, args []string) int {
 		}
 	}
 	wall := time.Since(t0).Seconds()
-	exhaustive := len(capped) == 0 && exit != 2
+	exhaustive := len(capped) == 0 && exit != 2 && !toolErr
 	cov := map[string]any{
 		"evaluations":                   execs,
 		"distinct_nontrivial":           nontriv,
